@@ -16,7 +16,15 @@ tvars == <<t, l, S, npre>>
 
 ObsDirs(e) == [c \in S.ctls |-> ToSet(e.dirs[c])]
 ObsMem(T, e) == [c \in S.ctls |-> [k \in ToSet(T.pids) |-> e.mem[c][k]]]
-DirChange(e) == IF ObsDirs(e) = S.dirs THEN "" ELSE "dirs"
+\* limit files of every group read back after the call, and Cpus_allowed_list of the helpers
+ObsLim(e) == { <<x.path, x.kind, x.val>> : x \in ToSet(e.lims) }
+\* "limits written are the limits in force": every limit a Set* call established (S1.lim) is still what
+\* the kernel reports, whatever call was just made; a cpuset limit also binds the processes in the group
+LimitsKept(T, e, S1) ==
+  IF ~(S1.lim \subseteq ObsLim(e)) THEN "limit-not-in-force"
+  ELSE IF \E x \in S1.lim : x[2] = "cpus" /\ \E k \in ToSet(T.pids) : S1.mem["cpuset"][k] = x[1] /\ e.allowed[k] # x[3]
+       THEN "limit-not-in-force-for-member"
+  ELSE ""
 
 \* compares the logged outcome of a call with the result r of its Spec operator
 Against(T, e, r) ==
@@ -30,9 +38,8 @@ Against(T, e, r) ==
           ELSE IF \E c \in S.ctls : r.S.dirs[c] \ ObsDirs(e)[c] # {} THEN "group-missing"
           ELSE "group-not-removed")
   ELSE IF ObsMem(T, e) # r.S.mem THEN "membership"
-  ELSE ""
+  ELSE LimitsKept(T, e, r.S)
 
-Limit(e) == CASE e.kind = "cpu" -> <<e.val, "100000">> [] OTHER -> <<e.val>>
 
 \* ---- race events
 PathsOf(I) == { S.hs[i].path : i \in I }
@@ -76,9 +83,8 @@ Check(T, e) ==
     [] e.op = "add"     -> Against(T, e, SpecAdd(S, e.h, e.pid))
     [] e.op = "destroy" -> Against(T, e, DestroyRes(T, e))
     \* a limit the kernel refuses (hierarchy constraints, usage above the limit) is reported as an
-    \* error; a limit that was accepted must be the one in force
-    [] e.op = "set"     -> (IF ~e.err /\ e.rb # Limit(e) THEN "limit-not-in-force"
-                            ELSE Against(T, e, Res(S, e.err, 0)))
+    \* error and changes nothing; a limit that was accepted is in force from now on
+    [] e.op = "set"     -> Against(T, e, IF e.err THEN Res(S, TRUE, 0) ELSE SpecSet(S, e.h, e.kind, e.val))
     [] e.op = "cdone"   -> CheckDone(e)
     [] e.op = "rdestroy" -> CheckRDestroy(e)
     [] OTHER -> "unknown-event"
@@ -92,18 +98,19 @@ Apply(T, e) ==
     [] e.op = "open"    -> SpecOpen(S, e.path).S
     [] e.op = "add"     -> SpecAdd(S, e.h, e.pid).S
     [] e.op = "destroy" -> DestroyRes(T, e).S
+    [] e.op = "set"     -> (IF e.err THEN S ELSE SpecSet(S, e.h, e.kind, e.val).S)
     [] e.op = "cdone"   -> AddHandle([S EXCEPT !.dirs = ObsDirs(e)],
                                      Handle(e.path, e.ex, IF e.ex THEN {} ELSE S.ctls, S.ctls))
     [] e.op = "rdestroy" -> [S EXCEPT !.dirs = ObsDirs(e), !.hs[e.h].live = FALSE]
     [] OTHER -> S
 
-Blank == [ctls |-> {}, dirs |-> <<>>, mem |-> <<>>, hs |-> <<>>]
+Blank == [ctls |-> {}, dirs |-> <<>>, mem |-> <<>>, hs |-> <<>>, lim |-> {}]
 TInit == t = 0 /\ l = 0 /\ S = Blank /\ npre = 0
 TPick ==
   /\ t = 0 /\ t' \in 1..N /\ l' = 1 /\ npre' = 0
   /\ LET T == Traces[t'] IN
      S' = [ctls |-> ToSet(T.ctls), dirs |-> [c \in ToSet(T.ctls) |-> {}],
-           mem |-> [c \in ToSet(T.ctls) |-> [k \in ToSet(T.pids) |-> Outside]], hs |-> <<>>]
+           mem |-> [c \in ToSet(T.ctls) |-> [k \in ToSet(T.pids) |-> Outside]], hs |-> <<>>, lim |-> {}]
 TStep ==
   LET T == Traces[t] IN
   /\ t > 0 /\ l <= Len(T.ev)
